@@ -12,18 +12,20 @@ Definition str_eqb (a b : string) : bool := if string_dec a b then true else fal
 
 Definition site_ok (s : string * string * bool * cform) : bool :=
   let '(_, _, wrapper, f) := s in
-  if wrapper then site_passes_param f else site_passes_stmt_ctx f.
+  if wrapper then site_passes_param f || site_passes_stmt_ctx f else site_passes_stmt_ctx f.
 
-(* the only literal allowed to take its context from a parameter is WithContext's own *)
+(* a Session literal keeps the context at hand, or takes the one an exported function was given by
+   its caller (WithContext and the helpers it goes through: the extractor resolves parameters of
+   unexported helpers to what their callers pass) *)
 Definition session_ok (s : string * string * slit) : bool :=
-  let '(_, fn, l) := s in
-  session_keeps_ctx l || (cform_eqb (l_ctx l) FParam && str_eqb fn "DB.WithContext").
+  let '(_, _, l) := s in
+  session_keeps_ctx l || cform_eqb (l_ctx l) FParam.
 
 (* a Statement that can execute (has a ConnPool) carries the context of the statement it is derived
-   from; the root statement of Open starts from context.Background() *)
-Definition statement_ok (s : string * string * bool * cform) : bool :=
-  let '(_, fn, pool, f) := s in
-  negb pool || cform_eqb f FStmt || (cform_eqb f FBackground && str_eqb fn "Open").
+   from; the root statement, reachable from Open only, starts from context.Background() *)
+Definition statement_ok (s : string * bool * bool * cform) : bool :=
+  let '(_, open_only, pool, f) := s in
+  negb pool || cform_eqb f FStmt || (cform_eqb f FBackground && open_only).
 
 Lemma call_sites_pass_stmt_ctx : forallb site_ok c18_call_sites = true.
 Proof. vm_compute. reflexivity. Qed.
